@@ -134,6 +134,27 @@ pub fn run(ctx: &'static Ctx) {
         check_malformed(ctx, s);
         bad += 1;
     }
+    // a well-formed path with something a clean-up helper would strip at either end: the edge segment then has more
+    // than four characters, so the string is malformed
+    for c in 1..=3usize {
+        for rooted in [false, true] {
+            let segs: Vec<[u8; 4]> = (0..c).map(|i| seg(i + 7)).collect();
+            let good = path_string(rooted, &segs);
+            for x in [" ", "  ", "\t", "\n", "\r\n", "\0", "\u{a0}", "\u{2003}", "\u{feff}", "\"", "'"] {
+                for s in [format!("{}{}", good, x), format!("{}{}", x, good), format!("{}{}{}", x, good, x)] {
+                    check_malformed(ctx, &s);
+                    bad += 1;
+                }
+                if c > 1 {
+                    // and around an interior dot
+                    let parts: Vec<&str> = good.splitn(2, '.').collect();
+                    check_malformed(ctx, &format!("{}{}.{}", parts[0], x, parts[1]));
+                    check_malformed(ctx, &format!("{}.{}{}", parts[0], x, parts[1]));
+                    bad += 2;
+                }
+            }
+        }
+    }
     ctx.engine("E3.malformed", json!({"strings": bad, "all_must_panic": true}));
 
     // ---- every string over {name character, dot} up to 14 characters, rooted or not: well-formed iff it is
